@@ -18,6 +18,7 @@ Ops:
   dist <mappings> <homeless> <p2s>             → _distribute_homeless_shares (mappings afterwards)
   spread <placement>                           → number of distinct servers (`distinctServers`)
   holds <p2s> <peer> <share>                   → `T`/`F`: `share in p2s[peer]` (`Holds`)
+  told <total> <nsrv> <readonly> <held>         → the selector state the ground truth prescribes (`toldState`), as `S:…`
   sel <cfg> <total> op op …                    → PeerSelector history: `a:P` add_peer, `s:P:N` add_peer_with_share,
         `r:P` mark_readonly_peer, `b:P` mark_bad_peer, `g` get_share_placements; one field per op joined by `;`
         (`-` None, `KeyError`, or the plan), then `S:<peers>|<readonly>|<bad>|<existing>` (state afterwards)
@@ -123,6 +124,11 @@ def handle : List String → String
   | ["holds", m, p, s] => match parseSetMap m, p.toNat?, s.toNat? with
     | some m, some p, some s => if Holds m p s then "T" else "F"
     | _, _, _ => "bad-op"
+  | ["told", total, nsrv, ro, held] => match total.toNat?, nsrv.toNat?, parseIds ro, parseSetMap held with
+    | some total, some nsrv, some ro, some held =>
+      let s := toldState total nsrv ro held
+      s!"S:{showIds s.peers}|{showIds s.readonly}|{showIds s.bad}|{showSetMap s.existing}"
+    | _, _, _, _ => "bad-op"
   | "sel" :: c :: total :: ops => match parseCfg c, total.toNat?, ops.mapM parseSelOp with
     | some c, some total, some ops =>
       let s0 := SelState.init total
